@@ -358,6 +358,8 @@ def run(tier: str, seed: int) -> int:
     run_protocol_mc(chk, thorough)
     traces, rej = run_traces(chk, rng, thorough)
     canary(chk, traces, rej)
+    # extensions of the specification beyond the listed property (DESIGN section 7)
+    run_module_extras(chk, rng, thorough)
     return chk.finish()
 
 
@@ -376,3 +378,83 @@ def replay(path: str) -> int:
     if rej:
         print(f"VIOLATION property={PID} replay={path}")
     return 1 if rej else 0
+
+
+# ------------------------------------------------------------------------------------------
+# Extension phase 1 (DESIGN section 7, item 1): Module extras / attribute storage
+# ------------------------------------------------------------------------------------------
+def run_module_extras(chk, rng, thorough):
+    from .. import graph
+    from ..impl_moduleextras import ModuleImpl
+    ALLK = {"reg", "assign", "delete", "read", "persist"}
+    INV = ["TypeOK", "ExclusiveInv", "Refinement", "RoundTrip", "Consistent"]
+
+    def mc(name, names, kinds, depth, inv, mismatch=False, must_fail=None):
+        c = dict(Names=set(names), OpKinds=set(kinds), AllowMismatch=mismatch, MaxDepth=depth)
+        res = tlc.run("ModuleExtrasMC", tlc.cfg_text(constants=c, invariants=inv, constraints=["Bounded"]), workers=4,
+                      timeout=3000)
+        if must_fail:
+            if must_fail not in res.violated:
+                raise MachineryFailure(f"ModuleExtras {name}: TLC did not reach the expected counterexample of {must_fail}")
+            chk.note(f"mc extras {name}: {must_fail} fails as expected (design-level observation, see notes/EXT-ModuleExtras.md)")
+            return
+        if res.violated:
+            chk.violation({"clause": "MC:" + ",".join(res.violated), "site": "spec:ModuleExtras", "config": name},
+                          {"config": name, "tlc_tail": res.out[-4000:]})
+        elif not res.ok:
+            raise MachineryFailure(f"ModuleExtrasMC {name} did not complete: {res.out[-2000:]}")
+        chk.add_tlc("mc:extras-" + name, res)
+        chk.note(f"mc extras {name}: {res.distinct} states, {res.generated} transitions, depth {res.depth}, {res.wall:.1f}s")
+
+    # the state spaces are finite: no depth bound, the whole closure is explored (MaxDepth never binds)
+    mc("2names-closure", "ab", ALLK - {"persist"}, 1000, INV)
+    mc("1name-persist-closure", "a", ALLK, 1000, INV)
+    if thorough:
+        mc("3names-closure", "abc", ALLK - {"persist"}, 1000, INV)
+        mc("2names-persist-closure", "ab", ALLK, 1000, INV)
+    mc("extras-can-hold-tensors", "a", ALLK, 1000, ["ExtrasTyped"], must_fail="ExtrasTyped")
+    mc("mismatched-load-shadows", "a", ALLK, 1000, ["ExclusiveInv"], mismatch=True, must_fail="ExclusiveInv")
+
+    gens = [("1name", "a", ALLK, 1000, None if thorough else 1500),
+            ("2names", "ab", ALLK - {"persist"}, 1000, None if thorough else 1500)]
+    first = None
+    for name, names, kinds, depth, budget in gens:
+        c = dict(Names=set(names), OpKinds=set(kinds), AllowMismatch=False, MaxDepth=depth)
+        res = tlc.run("ModuleExtrasMC", tlc.cfg_text(constants=c, invariants=["Emit"], constraints=["Bounded"]), workers=1,
+                      timeout=3000)
+        if not res.ok:
+            raise MachineryFailure(f"ModuleExtras generation {name} failed: {res.out[-2000:]}")
+        g = graph.Graph.from_lines(res.printed())
+        if len(g.states) != res.distinct:
+            raise MachineryFailure(f"ModuleExtras graph {name}: {len(g.states)} states printed, TLC reports {res.distinct}")
+        chk.add_tlc("gen:extras-" + name, res)
+        make = lambda names=names: ModuleImpl(names)  # noqa: E731
+        init_key = graph.canon(make().project())
+        if init_key not in g.states:
+            raise MachineryFailure(f"ModuleExtras: initial implementation state not in graph {name}: {init_key}")
+
+        def on_mismatch(sig, rep, name=name):
+            obs = (rep.get("observed") or {}).get("ret") or {}
+            sig = dict(sig, site="extras-" + sig.get("site", ""), raised=obs.get("e"))
+            chk.violation(sig, dict(rep, extension="ModuleExtras", names=list(names)))
+
+        stats = graph.replay(g, init_key, make, budget=budget, rng=rng, on_mismatch=on_mismatch, max_mismatch=20)
+        chk.evaluations += stats.edges
+        for k, o in stats.pairs:
+            chk.nontrivial.add(("extras", k, o))
+        chk.note(f"replay extras {name}: {stats.edges} edges of {g.n_edges}, {len(stats.states_visited)}/{len(g.states)} "
+                 f"states, mismatches={len(stats.mismatches)}")
+        first = first or (g, init_key, make)
+    # canary: a module that reports a different value for a lookup must be flagged
+    g, init_key, make = first
+    seen = []
+
+    def deviate(op, ret, st):
+        if ret.get("t") == "val":
+            ret = dict(ret, val=dict(ret["val"], v=ret["val"]["v"] + 1))
+        return ret, st
+    graph.replay(g, init_key, make, budget=300, rng=rng, on_mismatch=lambda s, r: seen.append(s), deviate=deviate,
+                 max_mismatch=5)
+    if not any(s.get("clause") == "RetOK" for s in seen):
+        raise MachineryFailure("canary: a deviating Module replay was not reported")
+    chk.note(f"canary extras: deviating replay reported ({len(seen)} mismatches)")
